@@ -32,13 +32,27 @@ RULE = ("each case: 1-3 channel groups (index+int64 data channel) pre-filled ser
         "file-system call and every delete offset resolver of A is a point, thread B is fired when A reaches point k (A waits "
         "25 ms for B, which may be blocked on a lock A holds). The result must equal the serial outcome A;B or B;A. "
         "Non-trivial there = B fired strictly inside A and both took effect.")
-TRUSTED = ["cesium public API driven by hooks/cesium/verifh/c09 (no in-package hook needed)",
+TRUSTED = ["runner/props/c09_src.py (translator: where ip.p.Lock() sits in indexPersist.prepare; whether idx.mu is held at "
+           "every prepare() call site; fails closed to the weaker protocol)",
+           "cesium public API driven by hooks/cesium/verifh/c09 (no in-package hook needed)",
            "Go race detector and a 40 s watchdog (observation only)"]
 ASSUMES = ["atomic steps of the model = cesium operations that reported success; the Go mutexes are assumed to make the "
            "modelled steps atomic (that assumption is what the race detector phase samples)"]
-PARTIAL = ("Data-race freedom and absence of deadlock are properties of the Go memory model and scheduler: observed over "
+PARTIAL = ("Persistence clause (close + reopen): proved for the index.domain protocol model of ONE channel "
+           "(Cesium/PersistOrder.v: every schedule of critical sections and file writes; protocol and call-site "
+           "discipline read off the Go source by runner/props/c09_src.py on every run) and refuted for the protocol "
+           "before fix 39ba064 (F74). Data-race freedom and absence of deadlock are properties of the Go memory model and scheduler: observed over "
            "sampled schedules with -race and a watchdog, not proved. The theorem covers serialisability of the "
            "content-level model for all interleavings of pairwise independent operations.")
+
+
+def consts(repo):
+    """translator: index.domain persistence protocol and prepare() call-site discipline read off the Go source"""
+    d = os.path.dirname(os.path.abspath(__file__))
+    if d not in sys.path:
+        sys.path.insert(0, d)
+    import c09_src
+    return c09_src.consts(repo)
 
 
 def gen_case(rng):
